@@ -173,7 +173,10 @@ def r3a_definite_assignment(ctx, chk, rule="C06.3a"):
     roles = K.role_classes(ctx)
     n = 0
     for role, cls in roles.items():
-        for meth in sorted(ctx.prog.classes[cls].methods.keys()):
+        names = set()
+        for c_ in ctx.prog.mro(cls):
+            names |= set(ctx.prog.classes[c_].methods.keys())       # inherited template methods are run on this class too
+        for meth in sorted(names):
             f = ctx.prog.resolve_method(cls, meth)
             if f is None or f.name.startswith("__") or f.name in ("check_next_states", "remove_path"):
                 continue
